@@ -227,6 +227,13 @@ EDITS = {
         ("rn07", "crates/lib/mimium-lang/src/compiler/mirgen/convert_qualified_names.rs", "    if ctx.is_locally_bound(name) {\n        return Expr::Var(name).into_id(loc);\n    }\n", "", "verus", "resolve_names"),
         ("rn08", "crates/lib/mimium-lang/src/compiler/mirgen/convert_qualified_names.rs", "        if !is_public && !ctx.is_within_module_hierarchy(&target_path) {", "        if !is_public && ctx.is_within_module_hierarchy(&target_path) {", "verus", "resolve_names"),
         ("rn09", "crates/lib/mimium-lang/src/ast/program.rs", "        if exists(&relative_mangled) {\n            return (relative_mangled, relative_path);", "        if exists(&relative_mangled) {\n            return (relative_mangled, path_segments.to_vec());", "verus", "resolve_names"),
+        ("rw10", "crates/lib/mimium-lang/src/compiler/mirgen/convert_qualified_names.rs", "            let new_rhs = convert_expr(ctx, rhs);", "            let new_rhs = rhs;", "verus", "resolve_walk"),
+        ("rw11", "crates/lib/mimium-lang/src/compiler/mirgen/convert_qualified_names.rs", "            // Unwrap parenthesized expressions\n            convert_expr(ctx, e)", "            // Unwrap parenthesized expressions\n            e", "verus", "resolve_walk"),
+        ("rw12", "crates/lib/mimium-lang/src/compiler/mirgen/convert_qualified_names.rs", "            Expr::Apply(new_fun, new_args).into_id(loc)", "            Expr::Apply(fun, new_args).into_id(loc)", "verus", "resolve_walk"),
+        ("rw13", "crates/lib/mimium-lang/src/compiler/mirgen/convert_qualified_names.rs", "            let new_else = opt_else.map(|e| convert_expr(ctx, e));", "            let new_else = opt_else;", "verus", "resolve_walk"),
+        ("rw14", "crates/lib/mimium-lang/src/compiler/mirgen/convert_qualified_names.rs", "            Expr::RecordUpdate(new_record, new_fields).into_id(loc)", "            Expr::RecordLiteral(new_fields).into_id(loc)", "verus", "resolve_walk"),
+        ("rw15", "crates/lib/mimium-lang/src/compiler/mirgen/convert_qualified_names.rs", "            Expr::Assign(new_target, new_value).into_id(loc)", "            Expr::Assign(new_value, new_target).into_id(loc)", "verus", "resolve_walk"),
+        ("rw16", "crates/lib/mimium-lang/src/compiler/mirgen/convert_qualified_names.rs", "            let new_v: Vec<_> = v.into_iter().map(|e| convert_expr(ctx, e)).collect();", "            let new_v: Vec<_> = v.into_iter().map(|e| { ctx.push_scope(); let c = convert_expr(ctx, e); c }).collect();", "verus", "resolve_walk"),
         ("rw01", "crates/lib/mimium-lang/src/compiler/mirgen/convert_qualified_names.rs", "            let new_body = convert_expr(ctx, body);\n            // The module context of a module-level `let` applies to its own right-hand side only:\n            // restore the enclosing context before converting the rest of the chain.\n            ctx.current_module_context = prev_context;\n            let new_then = then.map(|t| {\n                ctx.push_scope();\n                ctx.bind_pattern_locals(&pat.pat);\n                let converted = convert_expr(ctx, t);\n                ctx.pop_scope();\n                converted\n            });\n",
          "            let new_body = convert_expr(ctx, body);\n            let new_then = then.map(|t| {\n                ctx.push_scope();\n                ctx.bind_pattern_locals(&pat.pat);\n                let converted = convert_expr(ctx, t);\n                ctx.pop_scope();\n                converted\n            });\n            ctx.current_module_context = prev_context;\n", "verus", "resolve_walk"),
         ("rw02", "crates/lib/mimium-lang/src/compiler/mirgen/convert_qualified_names.rs", "                ctx.push_scope();\n                ctx.bind_pattern_locals(&pat.pat);\n                let converted = convert_expr(ctx, t);", "                ctx.push_scope();\n                let converted = convert_expr(ctx, t);", "verus", "resolve_walk"),
